@@ -82,6 +82,20 @@ CLAIMED = {
         note="Trusted: linearity of forward/adjoint on parameter vectors (itself probed), numpy. Classes under recorded "
              "known findings (non-orthonormal expansion geometries; Deconvolution2D even PSF / reflective BC) are excluded and counted.",
         design="3/C07"),
+    "C09": dict(
+        technique="Hypothesis property tests over run histories with harness-written spy subclasses of the block samplers, replayed against a reference model of the sweep; scripted-uniform MH decision test inside the sweep; successive-conditional statistical invariance test (two-stage)",
+        text="For generated joint targets (2-4 blocks, hyper-parameters in likelihood and priors), generated sampler assignments (MH, CWMH, "
+             "Conjugate, LinearRTO, MALA; legacy classes for cuqi.sampler.Gibbs), per-block step counts, sweep counts, warm-up and repeated "
+             "sample calls, every block step is recorded (target held, point before/after). A reference model (own dict of current values) "
+             "checks after every block update: blocks visited once per sweep in order; the block sampler starts from the block's current "
+             "value and is advanced the configured number of times as one chain; the target it holds has the logd differences of the joint "
+             "conditioned on the model's current other values; the stored sample of sweep i is the tuple of values after sweep i; a second "
+             "sample call resumes from the last stored tuple. MH blocks additionally run the C02 decision test against the true current "
+             "conditional inside the sweep. Invariance: theta ~ prior, y ~ p(y|theta), s sweeps on p(theta|y) with exact block samplers "
+             "must leave theta prior-distributed (KS and variance tests on closed-form pivots, two-stage rule).",
+        note="Statistical part: 600 (quick) / 6000 (thorough) replicates per configuration: detects gross violations of invariance only "
+             "(KS sup-distance ~0.07 / 0.02); the history part is exact.",
+        design="3/C09"),
     "C10": dict(
         technique="Hypothesis property tests: np.random.gamma interposed in record mode captures the Gamma the sampler draws from; compared with the target's own logd along the hyper-parameter axis; required-rejection checks; differential Direct vs target.sample under one seeded stream",
         text="For generated supported conjugate pairs (Gaussian cov=1/s or prec=s with vector or model mean, GMRF prec=d over bc/order/"
